@@ -1,0 +1,11 @@
+//go:build verif
+
+package litestream
+
+import "context"
+
+// VerifPageMap exposes the byte-budgeted page map of the WAL reader to the
+// verification harness (/verif). It is compiled only with -tags verif.
+func (r *WALReader) VerifPageMap(ctx context.Context, maxBytes int64) (m map[uint32]int64, maxOffset int64, commit uint32, limited bool, err error) {
+	return r.pageMap(ctx, maxBytes)
+}
